@@ -358,7 +358,12 @@ class SafeLearner(Learner):
             pred   = pred[:-1] if self._pred_kwargs else pred
 
             if self._pred_format.endswith('*'):
+                if not isinstance(pred,dict): pred = pred[0]
                 pred = list(pred.values())[0]
+            elif self._pred_format == 'PM':
+                pred = list(zip(*pred)) #one column per action
+            elif self._pred_format == 'AX':
+                pred = pred[0] #one column of actions
 
             if self._pred_format[:2] == 'PM':
                 A, P = list(map(list, zip(*map(self._rng.choicew,actions, pred))))
